@@ -8,7 +8,7 @@ from harness.stackrun import StackRun, fut_state, state_desc, tap_submits
 from harness.env import SpyFuture, desc
 
 PROP = "C03"
-PLAN = {"quick": {"runs": 9000, "wall_s": 90}, "thorough": {"runs": 200000, "wall_s": 1200}}
+PLAN = {"quick": {"runs": 16000, "wall_s": 90}, "thorough": {"runs": 200000, "wall_s": 1200}}
 RULE = ("Three workload families per seed: (A) sequential submit->result on a random static stack, completion time "
         "compared with the exact model bound (callable durations + retry delays + poll intervals); (B) concurrent "
         "clients with cancels through the derived future and cancellation behind its back (delegate reaped, inner "
@@ -36,6 +36,9 @@ def gen(rng, tier):
     nsubs = rng.choice([1, 2, 3, 4]) if mode == "A" else rng.choice([2, 3, 4, 6])
     layers = gen_layers(rng, depth, nsubs=nsubs, faults=True, fast=True)
     for L in layers:
+        if L["t"] == "poll" and rng.random() < 0.3:
+            # a raising poll call fails what it was shown; every other future must still finish
+            L["raise_at"] = sorted(set(rng.choice([1, 2, 3, 4]) for _ in range(rng.choice([1, 2]))))
         if L["t"] == "retry" and rng.random() < 0.35:
             # a user-written policy, possibly one that raises: "the retry policy declined" includes
             # a policy that could not be evaluated
@@ -297,7 +300,10 @@ def check(spec, env):
                                        % (e[1] / 1e9, e[4] / 1e9, nxt[0][5], types)})
                     break
     # (2) family A: completion no later than the configured delays imply
-    if spec["mode"] == "A" and not spec["sim"].get("stall_p"):
+    # (a poll call that raised fails a schedule-dependent set of futures, which layers above may
+    #  retry: the time bound of the reference model does not apply to such runs; "lost" still does)
+    poll_raised = any(e[3] == "ufn" and e[4] == "poll-raise" for e in sim.log)
+    if spec["mode"] == "A" and not spec["sim"].get("stall_p") and not poll_raised:
         slack = SLACK + sim.clock_reads * sim.tick_ns / 1e9
         t_sub, t_done = {}, {}
         for e in sim.log:
